@@ -132,6 +132,8 @@ def gen_write(rng, cfg, valid=True, frag=None, bad='range'):
     cnt = min(cnt, 60)
     src = source_type(rng, t, compatible=(valid or bad != 'type'))
     vals = values_for(rng, src, cnt)
+    if bad == 'type' and not valid and src in gen.INT_RANGES and rng.random() < 0.5:
+        vals = [rng.choice([0, 1, 2]) for _ in vals]        # small values: only the type can be the reason for a refusal
     if bad != 'type' or valid:
         # keep values representable in the destination (extremes of the source type are C05's business)
         from .arraymodel import represent
